@@ -117,7 +117,7 @@ def main(pid, tier, seed):
     mc = mc_stage()
     rcopy = core.repo_copy('cli')
     jobs = []
-    n_rules = 10 if tier == 'quick' else 80
+    n_rules = 10 if tier == 'quick' else 300
     for k in range(n_rules):
         with_x = (k % 3 == 2)
         name = 'r%d' % k
